@@ -24,6 +24,7 @@ type verifProject struct {
 	calls   []verifCall
 	fail    bool // the operation reports an error
 	partial bool // ... but with a non-empty partial result map
+	empty   bool // the operation succeeds with an empty result map (e.g. an empty list of names)
 }
 
 func (p *verifProject) rec(m, name string, a, b int) error {
@@ -35,6 +36,9 @@ func (p *verifProject) rec(m, name string, a, b int) error {
 }
 func (p *verifProject) statusMap() map[string]string {
 	if p.fail && !p.partial {
+		return map[string]string{}
+	}
+	if !p.fail && p.empty {
 		return map[string]string{}
 	}
 	return map[string]string{"x": "ok"}
@@ -206,7 +210,7 @@ func VerifC19_Handlers() {
 	routes := verifRoutes()
 	rt := routes[verifChoose(len(routes))]
 	verifShape(rt.name)
-	prj := &verifProject{fail: verifBool("runner_error"), partial: verifBool("partial_result")}
+	prj := &verifProject{fail: verifBool("runner_error"), partial: verifBool("partial_result"), empty: verifBool("empty_result")}
 	api := &PcApi{project: prj}
 	name := verifStrAny("name", 4)
 	verifBodyBad = false
